@@ -56,7 +56,8 @@ def run(chk):
         "Decides the guard of the metrics-store client: routing (every use of the raw client goes through the guard), the try body (return target(...) once per iteration), "
         "the retry budget by simulating the extracted counter comparisons (1 + 10 attempts, exhaustion ends in a raise, never a silent loop exit), exponential back-off in the "
         "counter, and the classification of 17 outcome classes placed in the real (parsed) library hierarchy as a decision table (transient: retry with sleep while budget, then "
-        "Rally error; fatal: Rally error at once), with the retryable status set == {429,502,503,504}."
+        "Rally error; fatal: Rally error at once), with the retryable status set == {429,502,503,504}. O17.5 follows the raw Elasticsearch client (created by the client package's factory) "
+        "through esrally/client/factory.py and esrally/metrics.py and requires every request-sending call of the store module to run inside the guard."
     )
     chk.not_decided = "partial success inside helpers.bulk (chunks already indexed are re-sent on retry), real back-off durations, faults of the client library itself."
     EC = met.cls("EsClient")
@@ -489,6 +490,394 @@ def run(chk):
             except (Unsupported, UnknownAtom):
                 pass
 
+    _store_requests_guarded(chk, repo, met, EC, gd)
+
+
+# ---- O17.5 every request that esrally/metrics.py sends to the metrics-store cluster is sent by the guard -------------------------------------------------------
+_CF = "esrally/client/factory.py"
+_SCOPE = ("esrally.client.", "esrally.metrics.")  # names are resolved into the client package and the store module only (nothing else creates or holds an Elasticsearch client for the store)
+
+
+def _pkg_file(repo, modname):
+    for p in (modname.replace(".", "/") + ".py", modname.replace(".", "/") + "/__init__.py"):
+        if repo.exists(p):
+            return p
+    return None
+
+
+def _resolve(repo, mod, name, depth=0):
+    """(Module, def node) of the esrally function / class that the dotted `name`, read in module `mod`, denotes — through import aliases and re-exporting
+    `__init__` modules. None when the name is not a definition of the package (library objects, locals, attributes of values)."""
+    if not name or depth > 6:
+        return None
+    parts = name.split(".")
+    top = getattr(mod, "_c17_top", None)
+    if top is None:
+        top = mod._c17_top = {n.name for n in mod.tree.body if isinstance(n, (ast.FunctionDef, ast.AsyncFunctionDef, ast.ClassDef))}
+    if parts[0] in top:
+        d = mod.index().get(name)
+        return (mod, d) if d is not None else None
+    if parts[0] not in mod.imports:
+        return None
+    fp = mod.imports[parts[0]].split(".") + parts[1:]
+    if not (".".join(fp) + ".").startswith(_SCOPE):
+        return None
+    for i in range(len(fp) - 1, 0, -1):
+        path = _pkg_file(repo, ".".join(fp[:i]))
+        if path is None:
+            continue
+        m2 = repo.module(path)
+        if m2 is mod and depth:
+            return None
+        return _resolve(repo, m2, ".".join(fp[i:]), depth + 1)
+    return None
+
+
+def _chain(node):
+    """(root expression, [attribute names outwards]) of an attribute chain."""
+    names = []
+    while isinstance(node, ast.Attribute):
+        names.append(node.attr)
+        node = node.value
+    return node, list(reversed(names))
+
+
+class _ClientFlow:
+    """Where Elasticsearch client objects are created and where they flow, over esrally/client/factory.py and esrally/metrics.py (Appendix E typing: a local / self attribute /
+    parameter carries a client when a creating expression is assigned / passed to it at some site). Roles are derived, not named:
+      client class   = package class with a base imported from the `elasticsearch` library whose name ends in `Elasticsearch`;
+      creator        = method of a client-package class that returns a construction of a client class (`create`, `create_async`);
+      request call   = a method called on a client value, except through its `.transport` (connection pool bookkeeping) and `options()` / `close()`;
+      sender         = client-package function that makes a request call or calls a sender."""
+
+    NON_REQUEST_LAST = ("options", "close")
+
+    def __init__(self, repo, mods):
+        self.repo = repo
+        self.mods = mods
+        self.client_params = set()   # (id(funcdef), parameter)
+        self.client_attrs = set()    # (id(classdef), self attribute)
+        self._creators = {}          # id(classdef) -> {method names}
+        self._defs = {}
+        self._solve()
+
+    # -- roles ---------------------------------------------------------------------------------------------------------------------------------
+    def is_client_class(self, mod, c, depth=0):
+        for b in c.bases:
+            d = dotted(b) or ""
+            head = d.split(".")[0]
+            if mod.imports.get(head, "").split(".")[0] == "elasticsearch" and (d.split(".")[-1]).endswith("Elasticsearch"):
+                return True
+            r = _resolve(self.repo, mod, d)
+            if r is not None and isinstance(r[1], ast.ClassDef) and depth < 4 and self.is_client_class(r[0], r[1], depth + 1):
+                return True
+        return False
+
+    def creators(self, mod, c):
+        if id(c) not in self._creators:
+            out = set()
+            for m in mod.methods(c).values():
+                defs = local_defs(m)
+                for r in walk_body(m):
+                    if isinstance(r, ast.Return) and r.value is not None:
+                        v = source.inline_node(r.value, defs)
+                        if isinstance(v, ast.Call):
+                            k = _resolve(self.repo, mod, dotted(v.func) or "")
+                            if k is not None and isinstance(k[1], ast.ClassDef) and self.is_client_class(k[0], k[1]):
+                                out.add(m.name)
+            self._creators[id(c)] = out
+        return self._creators[id(c)]
+
+    def defs_of(self, f):
+        if id(f) not in self._defs:
+            self._defs[id(f)] = local_defs(f)
+        return self._defs[id(f)]
+
+    def scopes(self, node):
+        """the function containing node and the functions enclosing it (closures read outer locals)."""
+        out = []
+        f = node if isinstance(node, (ast.FunctionDef, ast.AsyncFunctionDef)) else source.enclosing_func(node)
+        while f is not None:
+            out.append(f)
+            f = source.enclosing_func(f)
+        return out
+
+    def lookup(self, name_node):
+        """definition of a single-assignment local visible at name_node (own scope first), or None."""
+        for f in self.scopes(name_node):
+            if name_node.id in self.defs_of(f):
+                return self.defs_of(f)[name_node.id]
+            if name_node.id in params_of(f) + [a.arg for a in f.args.kwonlyargs]:
+                return None
+        return None
+
+    def factory_class(self, e, mod, depth=0):
+        """(Module, ClassDef) when expression e evaluates to an INSTANCE of a client-package class that has creator methods."""
+        if depth > 6:
+            return None
+        if isinstance(e, ast.Name):
+            d = self.lookup(e)
+            return self.factory_class(d, mod, depth + 1) if d is not None else None
+        if not isinstance(e, ast.Call):
+            return None
+        r = _resolve(self.repo, mod, dotted(e.func) or "")
+        if r is None and isinstance(e.func, ast.Name):
+            # a parameter whose default is the class (`client_factory=EsClientFactory`)
+            for f in self.scopes(e):
+                a = f.args
+                pos = a.posonlyargs + a.args
+                dflt = dict(zip([x.arg for x in pos[len(pos) - len(a.defaults):]], a.defaults))
+                dflt.update({x.arg: d for x, d in zip(a.kwonlyargs, a.kw_defaults) if d is not None})
+                if e.func.id in dflt:
+                    r = _resolve(self.repo, mod, dotted(dflt[e.func.id]) or "")
+                    break
+        if r is not None and isinstance(r[1], ast.ClassDef) and self.creators(r[0], r[1]):
+            return r
+        return None
+
+    def is_client(self, e, mod, depth=0):
+        """expression e evaluates to a raw Elasticsearch client."""
+        if e is None or depth > 8:
+            return False
+        if isinstance(e, ast.Name):
+            if not isinstance(e.ctx, ast.Load):
+                return False
+            for f in self.scopes(e):
+                if (id(f), e.id) in self.client_params:
+                    return True
+            d = self.lookup(e)
+            return d is not None and self.is_client(d, mod, depth + 1)
+        if is_self_attr(e):
+            c = source.enclosing_class(e)
+            return c is not None and (id(c), e.attr) in self.client_attrs
+        if isinstance(e, ast.Call) and isinstance(e.func, ast.Attribute):
+            k = self.factory_class(e.func.value, mod)
+            if k is not None and e.func.attr in self.creators(k[0], k[1]):
+                return True
+            return e.func.attr == "options" and self.is_client(e.func.value, mod, depth + 1)
+        return False
+
+    def callee(self, c, mod):
+        """(Module, FunctionDef, skip_self) of the package function that call c enters, else None."""
+        r = _resolve(self.repo, mod, dotted(c.func) or "")
+        if r is None and isinstance(c.func, ast.Attribute) and isinstance(c.func.value, ast.Name) and c.func.value.id == "self":
+            k = source.enclosing_class(c)
+            m = mod.methods(k).get(c.func.attr) if k is not None else None
+            return (mod, m, True) if m is not None else None
+        if r is None and isinstance(c.func, ast.Name):
+            k = self.factory_class(c, mod)
+            r = k
+        if r is None:
+            return None
+        m2, d = r
+        if isinstance(d, ast.ClassDef):
+            init = m2.methods(d).get("__init__")
+            return (m2, init, True) if init is not None else None
+        return (m2, d, source.enclosing_class(d) is not None and source.parent(d) is source.enclosing_class(d))
+
+    def _solve(self):
+        for _ in range(12):
+            before = (len(self.client_params), len(self.client_attrs))
+            for mod in self.mods:
+                for n in ast.walk(mod.tree):
+                    if isinstance(n, ast.Call) and source.enclosing_func(n) is not None:
+                        g = self.callee(n, mod)
+                        if g is None or g[0] not in self.mods:
+                            continue
+                        for p, a in source.bind_args(n, g[1], skip_self=g[2]).items():
+                            if self.is_client(a, mod):
+                                self.client_params.add((id(g[1]), p))
+                    elif isinstance(n, ast.Assign) and self.is_client(n.value, mod):
+                        c = source.enclosing_class(n)
+                        for t in n.targets:
+                            if is_self_attr(t) and c is not None:
+                                self.client_attrs.add((id(c), t.attr))
+            if before == (len(self.client_params), len(self.client_attrs)):
+                return
+
+    def request_call(self, c, mod):
+        """c is `<client>.<api...>(...)`: an API method invoked on a raw client (a request on the wire)."""
+        if not (isinstance(c, ast.Call) and isinstance(c.func, ast.Attribute)):
+            return False
+        root, names = _chain(c.func)
+        return bool(names) and names[0] != "transport" and names[-1] not in self.NON_REQUEST_LAST and self.is_client(root, mod)
+
+    def senders(self, mod):
+        """{id(funcdef): (funcdef, witness text)} for the functions of `mod` that (transitively) make a request call."""
+        out = {}
+        funcs = [f for f in mod.functions()]
+        for f in funcs:
+            for c in ast.walk(f):
+                if self.request_call(c, mod):
+                    out[id(f)] = (f, f"{u(c.func)}()")
+                    break
+        for _ in range(len(funcs)):
+            grew = False
+            for f in funcs:
+                if id(f) in out:
+                    continue
+                for c in ast.walk(f):
+                    if isinstance(c, ast.Call):
+                        g = self.callee(c, mod)
+                        if g is not None and id(g[1]) in out and g[1] is not f:
+                            out[id(f)] = (f, f"{g[1].name} -> {out[id(g[1])][1]}")
+                            grew = True
+                            break
+            if not grew:
+                break
+        return out
+
+
+def _store_requests_guarded(chk, repo, met, EC, gd):
+    fac = repo.module(_CF)
+    chk.use(fac)
+    if repo.exists("esrally/client/__init__.py"):
+        chk.use(repo.module("esrally/client/__init__.py"))
+    chk.rule("O17.5", "every call in esrally/metrics.py that sends a request to the metrics-store cluster is made by the guard: a client-package function that (transitively) invokes an "
+             "API method of an Elasticsearch client is handed to `guarded` as its target (or is called inside a function / lambda that is only ever used as such a target), and "
+             "outside the store client the raw client is only created, kept and handed to the wrapper", 2,
+             "a store request outside the retry loop: one 429/502/503/504, refused connection or time-out aborts with a raw client exception instead of being retried with growing "
+             "pauses, and a 401/403 is not turned into the Rally error that names the cause")
+    guard_name = gd.name
+    if [f for f in met.functions() if f.name == guard_name] != [gd]:
+        raise AnchorMissing(f"`{guard_name}` is not a unique method name in {_M}: guard calls cannot be resolved by name")
+    gparams = params_of(gd)
+    tparam = gparams[1] if len(gparams) > 1 else None
+    flow = _ClientFlow(repo, [fac, met])
+    senders = flow.senders(fac)
+    if not senders:
+        raise AnchorMissing(f"no function of {_CF} is recognised as sending a request through a client it creates or receives")
+
+    def is_guard_call(c):
+        return isinstance(c, ast.Call) and isinstance(c.func, ast.Attribute) and c.func.attr == guard_name
+
+    def flows_to_target(x, depth=0):
+        """the value of expression x is only ever used as the target argument of a guard call."""
+        p = source.parent(x)
+        if depth > 6 or p is None:
+            return False
+        if isinstance(p, ast.Call) and p.args and p.args[0] is x:
+            if is_guard_call(p):
+                return True
+            if last_attr(p.func) == "partial":
+                return flows_to_target(p, depth + 1)
+        if isinstance(p, ast.keyword) and p.arg == tparam and is_guard_call(source.parent(p)):
+            return True
+        if isinstance(p, ast.Assign) and p.value is x and len(p.targets) == 1 and isinstance(p.targets[0], ast.Name):
+            f = source.enclosing_func(p)
+            nm = p.targets[0].id
+            if f is None or nm not in flow.defs_of(f):
+                return False
+            loads = [n for n in ast.walk(f) if isinstance(n, ast.Name) and n.id == nm and isinstance(n.ctx, ast.Load)]
+            return bool(loads) and all(flows_to_target(n, depth + 1) for n in loads)
+        return False
+
+    def through_guard(c):
+        """call c executes only inside the retry loop: it sits in a lambda / nested function / method / module function whose every reference is a guard target."""
+        for a in source.ancestors(c):
+            if isinstance(a, ast.Lambda):
+                if flows_to_target(a):
+                    return True
+            elif isinstance(a, (ast.FunctionDef, ast.AsyncFunctionDef)):
+                holder = source.parent(a)
+                if isinstance(holder, ast.ClassDef):
+                    refs = [n for n in ast.walk(met.tree) if isinstance(n, ast.Attribute) and n.attr == a.name and isinstance(n.ctx, ast.Load)]
+                else:
+                    scope = source.enclosing_func(a) or met.tree
+                    refs = [n for n in ast.walk(scope) if isinstance(n, ast.Name) and n.id == a.name and isinstance(n.ctx, ast.Load)]
+                if refs and all(flows_to_target(r) for r in refs):
+                    return True
+        return False
+
+    def where(n):
+        return source.qualname(n) or "<module>"
+
+    def store_args(c):
+        f = source.enclosing_func(c)
+        defs = flow.defs_of(f) if f is not None else {}
+        opts = sorted({x.value for a in list(c.args) + [k.value for k in c.keywords] for x in ast.walk(source.inline_node(a, defs))
+                       if isinstance(x, ast.Constant) and isinstance(x.value, str) and x.value.startswith("datastore.")})
+        return f" (addressed by the [reporting] settings {', '.join(opts)})" if opts else ""
+
+    # (a) calls / references of request-sending client-package functions
+    for n in ast.walk(met.tree):
+        if isinstance(n, (ast.Name, ast.Attribute)) and isinstance(n.ctx, ast.Load) and not isinstance(source.parent(n), ast.Attribute):
+            r = _resolve(repo, met, dotted(n) or "")
+            if r is None or r[0] is met or id(r[1]) not in senders:
+                continue
+            p = source.parent(n)
+            nm, wit = dotted(n), senders[id(r[1])][1]
+            if isinstance(p, ast.Call) and p.func is n:
+                ok = through_guard(p)
+                chk.ob("O17.5", f"{where(p)}: the store request `{nm}(...)` is made by the guard", ok, p,
+                       f"{nm} sends {wit}{store_args(p)}" + ("" if ok else f"; it is called directly, outside `{guard_name}`: a transient fault of the metrics store at this moment is "
+                                                              "neither retried nor converted into a Rally error"),
+                       key=f"{_M}:{where(p)}:unguarded-store-call:{nm}")
+            else:
+                ok = flows_to_target(n)
+                chk.ob("O17.5", f"{where(n)}: the request-sending function `{nm}` is only handed to the guard as its target", ok, n,
+                       f"{nm} sends {wit}" + ("" if ok else f"; used as `{short(p, 60)}`"), key=f"{_M}:{where(n)}:store-call-value:{nm}")
+
+    # (b) the raw client outside the store client: created, kept, handed to the wrapper — never asked for anything
+    for f in met.functions():
+        if source.enclosing_class(f) is EC:
+            continue
+        for x in walk_body(f):
+            if not isinstance(x, (ast.Name, ast.Attribute, ast.Call)) or not isinstance(getattr(x, "ctx", None), (ast.Load, type(None))) or not flow.is_client(x, met):
+                continue
+            p = source.parent(x)
+            inst, ok, detail, k = None, True, "", None
+            if isinstance(p, (ast.Assign, ast.AnnAssign)) and p.value is x:
+                inst, detail = f"{where(x)}: raw client `{short(x, 40)}` is kept", short(p, 70)
+            elif isinstance(p, ast.Attribute) and p.value is x:
+                topn = p
+                while isinstance(source.parent(topn), ast.Attribute):
+                    topn = source.parent(topn)
+                names, node = [], topn
+                while node is not x:
+                    names.append(node.attr)
+                    node = node.value
+                names.reverse()
+                pc = source.parent(topn)
+                if names[0] == "transport" or names[-1] == "options":
+                    continue
+                if isinstance(pc, ast.Call) and pc.func is topn:
+                    if names[-1] in _ClientFlow.NON_REQUEST_LAST:
+                        continue
+                    ok = through_guard(pc)
+                    inst = f"{where(x)}: the store request `{short(topn, 50)}(...)` is made by the guard"
+                    detail = "" if ok else f"API method called on the raw client outside `{guard_name}`"
+                    k = f"{_M}:{where(x)}:unguarded-store-call:{u(topn)}"
+                elif flows_to_target(topn):
+                    inst = f"{where(x)}: method value `{short(topn, 50)}` of the raw client is handed to the guard"
+                elif isinstance(pc, (ast.Assign, ast.Call, ast.Return, ast.keyword)):
+                    chk.unknown("O17.5", f"method value `{short(topn, 50)}` of the raw client is stored / passed on: not one of the enumerated uses", topn)
+                    continue
+                else:
+                    continue
+            elif isinstance(p, (ast.Call, ast.keyword)):
+                call = p if isinstance(p, ast.Call) else source.parent(p)
+                if isinstance(p, ast.Call) and p.func is x:
+                    continue
+                r = _resolve(repo, met, dotted(call.func) or "")
+                if r is not None and r[1] is EC:
+                    inst, detail = f"{where(x)}: raw client `{short(x, 40)}` is handed to the wrapper", short(call, 70)
+                elif is_guard_call(call) and not (call.args and call.args[0] is x):
+                    inst = f"{where(x)}: raw client `{short(x, 40)}` is an argument of a guarded call"
+                elif r is not None and r[0] is not met:
+                    if id(r[1]) in senders:
+                        continue  # reported under (a)
+                    inst = f"{where(x)}: raw client `{short(x, 40)}` is handed to `{dotted(call.func)}`, which sends nothing"
+                else:
+                    chk.unknown("O17.5", f"raw client `{short(x, 40)}` is handed to `{short(call.func, 50)}`: not one of the enumerated uses", call)
+                    continue
+            elif isinstance(p, ast.Return):
+                chk.unknown("O17.5", f"{where(x)} returns the raw client: its callers are not analysed", p)
+                continue
+            else:
+                continue
+            chk.ob("O17.5", inst, ok, x, detail, key=k)
+
 
 from sa.selftest import V  # noqa: E402
 
@@ -510,6 +899,13 @@ VARIANTS = [
     V("seed m1: single-use iterator handed to the guard", "break", _M, "        self.guarded(elasticsearch.helpers.bulk, self._client, items, index=index, chunk_size=5000)", "        self.guarded(elasticsearch.helpers.bulk, self._client, filter(None, items), index=index, chunk_size=5000)", "O17.2"),
     V("seed m2: only item status 429 retryable", "break", _M, "                    if err.get(\"index\", {}).get(\"status\", None) not in self.retryable_status_codes:", "                    if err.get(\"index\", {}).get(\"status\", None) != 429:", "O17.4"),
     # preserving
+    V("F55 shape: raw store client asked directly by the store factory", "break", _M, "        c = EsClient(self._client)\n", "        self._client.info()\n        c = EsClient(self._client)\n", "O17.5"),
+    V("F55 shape: REST-layer wait on the raw store client outside the guard", "break", _M, "        self._client = factory.create()\n", "        self._client = factory.create()\n        client.wait_for_rest_layer(self._client)\n", "O17.5"),
+    V("F55 shape: version probe repeated directly when the wrapper is created", "break", _M, "        c = EsClient(self._client)\n",
+      "        client.cluster_distribution_version(hosts=self._hosts, client_options=self._options)\n        c = EsClient(self._client)\n", "O17.5"),
+    # preserving (O17.5)
+    V("raw store client kept through a local", "keep", _M, "        self._client = factory.create()\n", "        raw = factory.create()\n        self._client = raw\n"),
+    V("raw store client wrapped through a local", "keep", _M, "        c = EsClient(self._client)\n", "        raw = self._client\n        c = EsClient(raw)\n"),
     V("1 << k back-off", "keep", _M, "            time_to_sleep = 2**execution_count + random.random()", "            time_to_sleep = (1 << execution_count) + random.random()"),
     V("set literal", "keep", _M, "        self.retryable_status_codes = [502, 503, 504, 429]", "        self.retryable_status_codes = {429, 502, 503, 504}"),
     V("budget constant 10 inline", "keep", _M, "        while execution_count <= max_execution_count:", "        while execution_count <= 10:"),
